@@ -212,14 +212,21 @@ pub fn ball_pivot_with_centers_2d(
         // between circles. The one with the intersection that has the smallest positive angle to
         // the last ball contact point is the one we choose to pivot on
         let mut best: Option<PivotPoint> = None;
+        // Where the ball currently is
+        let current_center = points[working_index] + direction * radius;
         for (ni, _) in neighbors.iter() {
-            // We want to skip the neighbor two elements back, because that's the one we just came
-            // from, and it will otherwise have a perfect intersection at 0 degrees.
-            if results.len() >= 2 && *ni == results[results.len() - 2] {
-                continue;
-            }
-
             for pi in circles[working_index].intersections_with(&circles[*ni]) {
+                // The neighbor two elements back is the one we just came from, the ball is still
+                // touching it in its current position, which would otherwise be a perfect
+                // intersection at 0 degrees. Its other intersection is a legitimate pivot (the
+                // ball rolling around the end of a row of points comes back to it).
+                if results.len() >= 2
+                    && *ni == results[results.len() - 2]
+                    && dist(&pi, &current_center) < 1e-6 * radius
+                {
+                    continue;
+                }
+
                 let di = pi - points[working_index];
                 let angle = directed_angle(&direction, &di, pivot_direction);
                 if angle < 1e-6 {
